@@ -113,6 +113,9 @@ Lemma sout_call env name d ps : sout' env (SCall name d ps)
     | None => None
     end.
 Proof. reflexivity. Qed.
+Lemma sout_msg env body : sout' env (SMsg body)
+  = if msg_ok body then match bout' env body with Some t => Some (t, env) | None => None end else None.
+Proof. reflexivity. Qed.
 Lemma pout_nil env acc : pout' env PNil acc = Some acc. Proof. reflexivity. Qed.
 Lemma pout_val env k e r acc : pout' env (PVal k e r) acc
   = if is_ident k then match ceval ij env e with Some v => pout' env r (env_set acc k v) | None => None end else None.
@@ -172,6 +175,8 @@ Proof. reflexivity. Qed.
 Lemma sgen_css sc n e sfx : sgen' sc n (SCss e sfx) = (JSCss buf (match e with Some x => Some (cgen sc x) | None => None end) sfx, (sc, n)).
 Proof. reflexivity. Qed.
 Lemma sgen_call sc n name d ps : sgen' sc n (SCall name d ps) = let '(jps, n1) := pgen mode sc n ps in (JSCall buf name (dgen sc d) jps, (sc, n1)).
+Proof. reflexivity. Qed.
+Lemma sgen_msg sc n body : sgen' sc n (SMsg body) = let '(jb, n1) := bgen' sc n body in (JSSeq jb, (sc, n1)).
 Proof. reflexivity. Qed.
 Lemma pgen_nil sc n : pgen mode sc n PNil = (JPNil, n). Proof. reflexivity. Qed.
 Lemma pgen_val sc n k e r : pgen mode sc n (PVal k e r) = let '(jr, n1) := pgen mode sc n r in (JPVal k (cgen sc e) jr, n1). Proof. reflexivity. Qed.
@@ -252,6 +257,7 @@ Proof. reflexivity. Qed.
 Lemma js_exec_call env buf name d ps : js_exec env (JSCall buf name d ps)
   = (env1 <- jp_exec jfn env ps ;; dv <- js_call_data env1 d (jp_args ps) ;; r <- jfn name dv (js_ij_arg env1) ;; js_append_text env1 buf r).
 Proof. reflexivity. Qed.
+Lemma js_exec_seq env b : js_exec env (JSSeq b) = jb_exec env b. Proof. reflexivity. Qed.
 Lemma jp_exec_cont env k g body r : jp_exec jfn env (JPCont k g body r) = (env1 <- jb_exec (jvset env g (JStr [])) body ;; jp_exec jfn env1 r).
 Proof. reflexivity. Qed.
 End ExecEqs.
@@ -508,6 +514,7 @@ Proof.
     + inversion H; subst. lia.
   - intros e sfx buf sc n j sc' n' H. inversion H. lia.
   - intros name d ps IHp buf sc n j sc' n' H. rewrite sgen_call in H. destruct (pgen mode sc n ps) as [jps n1] eqn:E1. inversion H; subst. eapply IHp; eauto.
+  - intros body IHb buf sc n j sc' n' H. rewrite sgen_msg in H. destruct (bgen mode buf sc n body) as [jb n1] eqn:E1. inversion H; subst. eapply IHb; eauto.
   - intros buf sc n jb n' H. inversion H. lia.
   - intros s IHs r IHr buf sc n jb n' H. rewrite bgen_cons in H.
     destruct (sgen mode buf sc n s) as [j [sc1 n1]] eqn:E1. destruct (bgen mode buf sc1 n1 r) as [jr n2] eqn:E2. inversion H; subst.
@@ -548,6 +555,7 @@ Proof.
     destruct hasie; [destruct (bgen mode buf ([] :: sc) n1 ie) as [ji n2]|]; inversion H; auto.
   - inversion H; auto.
   - rewrite sgen_call in H. destruct (pgen mode sc n ps) as [jps n1]. inversion H; auto.
+  - rewrite sgen_msg in H. destruct (bgen mode buf sc n body) as [jb n1]. inversion H; auto.
 Qed.
 
 (* the names a statement binds are identifiers *)
@@ -556,7 +564,7 @@ Definition binder_ok (s : cstmt) : Prop :=
 Lemma sgen_after_ident mode buf sc n s j sc' n' : binder_ok s -> sgen mode buf sc n s = (j, (sc', n')) ->
   sc' = sc \/ (exists name, is_ident name = true /\ sc' = jsc_bind_pure sc name (jsc_name name (n + 1)) /\ n + 1 <= n').
 Proof.
-  intros Hb H. destruct s as [t|e ds|nm e|nm body|c th rest|v cs|x e body hasie ie|x a1 rest body hasie ie|e sfx|cname cd cps]; cbn [binder_ok] in Hb.
+  intros Hb H. destruct s as [t|e ds|nm e|nm body|c th rest|v cs|x e body hasie ie|x a1 rest body hasie ie|e sfx|cname cd cps|mbody]; cbn [binder_ok] in Hb.
   - inversion H; auto.
   - inversion H; auto.
   - inversion H; subst. right. exists nm. split; [exact Hb|]. split; [reflexivity|lia].
@@ -571,6 +579,7 @@ Proof.
     destruct hasie; [destruct (bgen mode buf ([] :: sc) n1 ie) as [ji n2]|]; inversion H; auto.
   - inversion H; auto.
   - rewrite sgen_call in H. destruct (pgen mode sc n cps) as [jps n1]. inversion H; auto.
+  - rewrite sgen_msg in H. destruct (bgen mode buf sc n mbody) as [jb n1]. inversion H; auto.
 Qed.
 Lemma swf_binder lv s : swf lv s = true -> binder_ok s.
 Proof. destruct s; cbn [swf binder_ok]; auto; intro H; apply andb_prop in H; apply H. Qed.
@@ -1316,6 +1325,11 @@ Proof.
     + cbn [bind]. unfold js_append_text. rewrite Hb1. eexists. split; [reflexivity|].
       split; [exact (jinv_append buf sc' n env' je1 old _ G (conj ER1 Hb1))|eapply frame_comp; [exact F1|apply append_frame]].
     + intros v Hv. unfold js_ij_arg. rewrite (er_ij _ _ _ _ ER1 v Hv). reflexivity.
+  - (* msg *) intros body IHb buf sc n env je old text env' j sc' n' G E I DR Eg. rewrite sout_msg in E. rewrite sgen_msg in Eg.
+    destruct (msg_ok body); [|discriminate]. destruct (bout ij mode go_print_text denv callee env body) as [t|] eqn:Et; [|discriminate]. inversion E; subst. clear E.
+    destruct (bgen mode buf sc n body) as [jb n1] eqn:E1. inversion Eg; subst. clear Eg.
+    destruct (IHb buf sc' n env' je old text jb n' G Et I DR E1) as (je' & X & Hb' & F).
+    exists je'. rewrite js_exec_seq. split; [exact X|]. split; [eapply jinv_frame; eauto|exact F].
   - (* BNil *) intros buf sc n env je old text jb n' G E I DR Eg. rewrite bout_nil in E. rewrite bgen_nil in Eg. inversion E; subst. inversion Eg; subst.
     exists je. rewrite app_nil_r. split; [reflexivity|]. split; [apply I|apply frame_refl].
   - (* BCons *) intros s IHs r IHr buf sc n env je old text jb n' G E I DR Eg. rewrite bout_cons in E. rewrite bgen_cons in Eg.
